@@ -1,7 +1,12 @@
 NOTES = ('Single entry point ./check <ID> --tier quick|thorough [--replay FILE]; exit 0 held, 1 violation '
          '(VIOLATION line), 2 harness error. Known findings live in known_findings.json (read-only at run time).')
 NOT_APPLICABLE = {}
+R1NOTE = 'Trusted: the independent reference ES5 front end harness/ref_es5.py (validated at the start of every run against trees known by construction, and on the repository test snippets); the narrow neutralisers/predicates of listed findings in harness/findings.py.'
 CHECKS = {
+ 'C03': dict(
+    text='Differential against an independently written ES5.1 lexer + recursive-descent parser over (i) grammar-derived programs whose tree is known by construction, under four layout regimes, (ii) all token strings up to length 3 (quick) / 4 (thorough) over a 29-token alphabet (exhaustive for that bound), (iii) single-token mutations of derived programs and of the repository snippets. Acceptance is compared in both directions and trees structurally. Sampled exploration beyond the enumerated part.',
+    note=R1NOTE,
+    technique='differential testing against a reference parser: Hypothesis grammar-based generation + exhaustive short-string enumeration + mutation'),
  'C10': dict(
     text='Exhaustive enumeration of a symmetric integer range plus all power-of-32 boundaries up to 400 bits, plus Hypothesis-generated integers, lists, mappings structures and grammar-built canonical VLQ strings; round trips at all three levels and a differential against an independent codec. Exhaustive for the stated range, sampled beyond it.',
     note='Trusted: the 20-line reference codec in harness/ref_vlq.py (validated on worked examples at start of each run).',
